@@ -28,6 +28,15 @@ Inductive case :=
                                         fall in different final buckets -- order dependent *)
 | CGoOnly.                           (* too large to evaluate here: harness-side oracles only *)
 
+(* the harness writes its long lists as first differences (smaller numerals parse much faster) *)
+Fixpoint undz_from (acc : Z) (l : list Z) : list Z :=
+  match l with
+  | [] => []
+  | d :: r => let a := acc + d in a :: undz_from a r
+  end.
+Definition undz (l : list Z) : list Z := undz_from 0 l.
+Definition undn (l : list Z) : list N := map Z.to_N (undz l).
+
 (* ---- linear codes ---- *)
 Definition inbox (lo hi p : pt) : bool :=
   let '(lx, ly, lz) := lo in let '(hx, hy, hz) := hi in let '(x, y, z) := p in
